@@ -21,6 +21,9 @@ CONSTANTS
   GenCheck = TRUE
   ModernUnsub = FALSE
   ForeignUnsub = FALSE
+  Listeners = {}
+  MaxListens = 0
+  FailUndo = TRUE
   Stepwise = TRUE
   Gates = TRUE
   GateNames = {"put"}
